@@ -25,8 +25,11 @@ pub struct TargetRoot {
 }
 
 pub fn dedup_roots(mut roots: Vec<TargetRoot>) -> Vec<TargetRoot> {
+    // Sort with the same (component-wise) path comparison that `dedup_by` uses below: ordering by
+    // the raw string can separate two spellings of one path (`/p` and `/p//`), and a root that
+    // survives twice has its manifest written twice, the second time without any entries.
     roots.sort_by(|a, b| {
-        (a.target.as_str(), a.root.as_os_str()).cmp(&(b.target.as_str(), b.root.as_os_str()))
+        (a.target.as_str(), a.root.as_path()).cmp(&(b.target.as_str(), b.root.as_path()))
     });
     roots.dedup_by(|a, b| a.target == b.target && a.root == b.root);
     roots
